@@ -345,6 +345,9 @@ func runCheck(id, tier string) int {
 				harnessErrs = append(harnessErrs, fmt.Sprintf("worker %d: %v %v", w, m["class"], m["detail"]))
 			case "violation":
 				c, _ := m["class"].(string)
+				if strings.HasSuffix(c, "/panic") {
+					c += " " + fmt.Sprint(m["key"])
+				}
 				if _, ok := violations[c]; !ok {
 					violations[c] = m
 				}
